@@ -90,8 +90,10 @@ CLAIMED = {
             'x in children(p) iff parent(x) = p, no repetition, one root, no self-parent — for all seven operations incl. the recursive remove_state, '
             'any session, any chart built by the API); no_reference_dangles_after_* / any_edit_session_leaves_no_dangling_reference (initial/memory name existing '
             'states); validate_means (validate() on a consistent chart = every initial a child, every memory a sibling) and validate_passes_after_remove/_move/'
-            '_rename/_add, any_edit_session_keeps_validate_passing (states added without initial/memory). PARTIAL: acyclicity beyond no-self-parent and '
-            'the who-may-contain-what constraints after each edit are checked by the tie. ' + TIE, '§6 C16'),
+            '_rename/_add, any_edit_session_keeps_validate_passing (states added without initial/memory); still_a_tree_after_* / any_edit_session_keeps_the_tree / '
+            'built_charts_are_trees (the parent relation stays acyclic: move_state re-hangs a subtree outside itself because descendants_for is complete on a '
+            'consistent acyclic chart); remove_state_removes_exactly_the_subtree (the states outside the subtree of n keep their parents, the transitions '
+            'outside it stay in order, everything else is gone). ' + TIE, '§6 C16'),
     'C17': ('Lean 4 proof: rename substitutes exactly the transition ends, keeps internal transitions internal, is atomic + guest/copy correspondence',
             'rename_substitutes_transition_ends, rename_keeps_internal, rename_to_itself, rename_atomic; rename_is_substitution (the renamed chart is '
             'the chart with the name substituted everywhere, up to declaration order) and renamed_behaves_as_substituted (by C07: same runs); '
